@@ -511,8 +511,8 @@ func wiringRule(c *Ctx, rule string) {
 		if f.Synthetic != "" && strings.HasPrefix(f.Name(), "HandleGatewayProtocol$bound") && len(mc.Bindings) == 1 {
 			regs = append(regs, mc)
 			if gw == nil {
-				gw = mc.Bindings[0]
-			} else if gw != mc.Bindings[0] {
+				gw = c.upOne(mc.Bindings[0])
+			} else if gw != c.upOne(mc.Bindings[0]) {
 				c.Bad(rule, "main gateway-identity", mc.Pos(), "handlers are registered on different Gateway values")
 			}
 		}
